@@ -34,6 +34,46 @@ def gen_scenarios(seed: int, n: int, max_msgs: int | None, kmax: int = 3):
     return out
 
 
+def synthetic_scenarios(tier: str, base_id: int):
+    """Reducer scenarios with hand-made streams: every pair (triple) of per-worker incumbent sequences over a
+    small value set with negative values and ties; enumeration streams with 0..2 solutions per worker."""
+    import itertools
+    vals = [-2, -1, 0, 1]
+    out = []
+
+    def seqs(mode):
+        ss = [[]] + [[v] for v in vals]
+        for a, b in itertools.permutations(vals, 2):
+            if (mode == "min" and a > b) or (mode == "max" and a < b):
+                ss.append([a, b])
+        return ss
+
+    for mode in ("min", "max"):
+        S = seqs(mode)
+        for a, b in itertools.product(S, S):
+            out.append((mode, [a, b]))
+        S1 = [s for s in S if len(s) <= 1]
+        for a, b, c in itertools.product(S1, S1, S1):
+            out.append((mode, [a, b, c]))
+    for lens in itertools.product((0, 1, 2), repeat=2):
+        out.append(("solve", [[10 * w + i for i in range(n)] for w, n in enumerate(lens)]))
+    for lens in itertools.product((0, 1, 2), repeat=3):
+        out.append(("solve", [[10 * w + i for i in range(n)] for w, n in enumerate(lens)]))
+    if tier == "quick":
+        out = out[::2] + [("min", [[-1], [-2]]), ("min", [[-2], [-1]]), ("max", [[-2], [-1]]), ("max", [[-1, 0], [-2, 1]])]
+    scs, streams = [], {}
+    for k, (mode, st) in enumerate(out):
+        sid = base_id + k
+        scs.append({"id": sid, "synthetic": True, "mode": mode, "var": 0, "k": len(st)})
+        msgs = []
+        for w, vs in enumerate(st):
+            ms = [[w, [v], [100 * (w + 1) + i + 1] * 13] for i, v in enumerate(vs)]
+            ms.append([w, None, [100 * (w + 1) + len(vs) + 1] * 13])
+            msgs.append(ms)
+        streams[sid] = {"id": sid, "streams": msgs, "seq": [], "seqopt_none": True, "seqopt": 0}
+    return scs, streams
+
+
 def orders_count(lens):
     from math import factorial
     tot = factorial(sum(lens))
@@ -58,7 +98,8 @@ def run_record(sc, st, run, rid, kind):
     streams_vals = to_model_scenario(sc, st)["streams"]
     sols = [[m[1] for m in ws if m[1] is not None] for ws in st["streams"]]
     finals = [ws[-1][2] for ws in st["streams"]]
-    return {"rid": rid, "kind": kind, "mode": sc["mode"], "var": sc["var"], "streams": streams_vals, "sols": sols,
+    return {"rid": rid, "kind": kind, "hasseq": not sc.get("synthetic", False), "mode": sc["mode"], "var": sc["var"],
+            "streams": streams_vals, "sols": sols,
             "finals": finals, "seq": st["seq"], "seqnone": st["seqopt_none"], "seqopt": st["seqopt"],
             "gets": run["gets"], "yields": run["yields"], "none": run["none"], "ret": run["ret"],
             "agg": run["agg"], "raised": run["raised"]}
@@ -92,6 +133,9 @@ def c11_pipeline(rep, tier, seed, jit=False):
         outs = run_workers("mp_worker.py", [{"kind": "streams", "scenarios": scs[k::NCPU]} for k in range(NCPU) if scs[k::NCPU]],
                            env, tmp, timeout=1500)
         streams = {s["id"]: s for s in read_ndjson(outs)}
+        syn, syn_streams = synthetic_scenarios(tier, base_id=100000)
+        scs = scs + syn
+        streams.update(syn_streams)
         # scenarios small enough for the exhaustive exploration of arrival orders
         small, big = [], []
         for sc in scs:
@@ -145,7 +189,7 @@ def c11_pipeline(rep, tier, seed, jit=False):
             sc = byid[run["id"]]
             recs.append(run_record(sc, streams[sc["id"]], run, len(recs), "replay"))
         # ---- C->S: real processes, arrival order as the OS produced it
-        realsc = (big + small)[: (6 if tier == "quick" else 48)]
+        realsc = [sc for sc in (big + small) if not sc.get("synthetic")][: (6 if tier == "quick" else 48)]
         outs = run_workers("mp_worker.py", [{"kind": "real", "scenarios": [sc]} for sc in realsc], env, tmp, timeout=600)
         nreal = 0
         for run in read_ndjson(outs):
